@@ -62,7 +62,9 @@ def run(repo: Repo, ctx) -> None:
         'derived from parent + script); R2 every drop of a type-holding '
         'object schedules removal-if-unused of the type it held, and SET '
         'TYPE of the old target; R3 a collection is kept only because of '
-        'outside referrers; R4 propagated alters reach all descendants. The '
+        'outside referrers; R4 propagated alters reach all descendants; R5 '
+        'a reference dropped from one parent survives through the other, R6 '
+        'rebase positions (shared with C02.R4/R5). The '
         'equality of the end states of two chains is NOT decided (it is '
         'C02 composed over a history).')
     ctx.not_decided = ['equality of schemas reached through different chains',
@@ -73,6 +75,14 @@ def run(repo: Repo, ctx) -> None:
     _r3(repo, ctx)
     from . import c02
     c02.propagation_rule(repo, ctx, 'C10.R4')
+    # R5 / R6: the two inheritance mechanisms a history exercises that a
+    # single computed step does not -- a pointer dropped from one of two
+    # parents stays on the child (C02.R4), and positional base insertions
+    # of one step do not disturb each other (C02.R5).  Both are what a
+    # replayed chain does differently from a direct migration.
+    from .c11 import _Sub
+    c02._r4(repo, _Sub(ctx, 'C10.R5'))
+    c02._r5(repo, _Sub(ctx, 'C10.R6'))
 
 
 def _r1(repo: Repo, ctx) -> None:
